@@ -66,6 +66,11 @@ func NewSM2Generator() *SM2Point {
 	}).Set(sm2G)
 }
 
+// IsInfinity returns 1 if p is the point at infinity, and 0 otherwise.
+func (p *SM2Point) IsInfinity() int {
+	return p.z.IsZero()
+}
+
 // Set sets p = q and returns p.
 func (p *SM2Point) Set(q *SM2Point) *SM2Point {
 	p.x.Set(q.x)
